@@ -143,6 +143,12 @@ def make_run(focus, seed):
     else:
         K = wchoice(rng, [(1, 5), (2, 4), (3, 1)])
     clients_cfg = [make_client_config(rng, focus, i) for i in range(K)]
+    if K >= 2 and rng.random() < 0.25:
+        # twin graphs: same skeleton and node count, other constants / indices / keyword arguments
+        import copy
+        clients_cfg[1] = copy.deepcopy(clients_cfg[0])
+        clients_cfg[1]['program'] = programs.twin(clients_cfg[0]['program'], rng)
+        clients_cfg[1]['twin_of'] = 0
     n_steps = rng.choice([8, 12, 16, 24, 32, 45, 60])
     # how child R isolates its reference computations from one another (refs.run_deferred)
     ref_isolation = 'fork' if rng.random() < 0.25 else 'reverse'
@@ -172,6 +178,7 @@ def make_run(focus, seed):
     plan = []
     ptr = [None]
     n_faults = [0]
+    enum_done = [False]
     hints = []
     last_c = [None]
 
@@ -242,6 +249,12 @@ def make_run(focus, seed):
             else:
                 vals = utpm_values(rng, D, P, n, base=base)
             ins.append(input_spec(c, j, n, kind, D, P, vals))
+        if kind == 'nd' and not poison and not feedback and rng.random() < 0.08:
+            # a plain integer array as replay input
+            for i in ins:
+                i['val'] = [float(int(v)) for v in i['val']]
+                i['dtype'] = 'int'
+                i['mode'] = 'new'
         if not poison:
             c.last_base = bases
         if feedback:
@@ -261,6 +274,19 @@ def make_run(focus, seed):
             step['errstate'] = rng.random() < 0.7
         step['inputs'] = ins
         step['fault'] = None if poison else maybe_fault('fwd')
+        if (focus == 'C06' and mode == 'inject' and not poison and not feedback and step['fault'] is None
+                and not enum_done[0] and c.have_fwd and rng.random() < 0.03):
+            # systematic: a forward evaluation at other inputs (another kind/D/P) interrupted at every
+            # source line of its kernels in turn, each time followed by this evaluation
+            if rng.random() < 0.3:
+                ek, eD, eP = 'nd', None, None
+            else:
+                ek = 'utpm'
+                eD, eP = rand_DP(rng)
+            step['enum'] = {'cap': 300, 'inputs': [
+                {'kind': ek, 'D': eD, 'P': eP,
+                 'val': point(rng, n) if ek == 'nd' else utpm_values(rng, eD, eP, n)} for n in prog['n_in']]}
+            enum_done[0] = True
         c.have_fwd = True
         c.last_fwd_kind = (kind, D, P)
         c.last_call = step
@@ -275,6 +301,12 @@ def make_run(focus, seed):
         step = {'op': 'rev', 'c': c.idx, 'subseed': rng.randrange(1 << 30), 'bad': bad,
                 'reuse_seed': (not bad) and rng.random() < 0.5,
                 'fault': None if bad else maybe_fault('rev')}
+        if (focus == 'C06' and mode == 'inject' and not bad and step['fault'] is None and not enum_done[0]
+                and rng.random() < 0.04):
+            # once in a while a systematic sweep over *all* interrupt points of one reverse sweep
+            step['enum'] = {'subseed': rng.randrange(1 << 30), 'cap': 400}
+            step['reuse_seed'] = False
+            enum_done[0] = True
         c.last_call = step
         plan.append(step)
         r = rng.random()
@@ -343,6 +375,11 @@ def make_run(focus, seed):
                 for i in step['inputs']:
                     # same values: either a brand-new object or the very same one
                     i['mode'] = rng.choice(['new', 'same'])
+            if step['op'] == 'rev' and not step.get('bad'):
+                # the same seed objects passed again untouched, or fresh objects with the same values
+                step['same_seed'] = rng.random() < 0.6
+                step['reuse_seed'] = False
+                step.pop('enum', None)
             plan.append(step)
         return True
 
